@@ -118,9 +118,9 @@ def _t1_quick():
 
 
 def _t1_thorough():
-    out = [{'k': 1, 'sigma': True, 'r': r} for r in RENDERERS] + [{'k': 2, 'sigma': True, 'r': r, 'timeout': 6000} for r in MAIN]
-    out += [{'k': 2, 'sigma': False, 'r': r, 'c1': c} for r in RENDERERS_FINITE for c in ALPH14]
-    out += [{'k': 3, 'sigma': False, 'r': r, 'c1': c, 'timeout': 6000} for r in MAIN for c in ALPH14]
+    out = [{'k': 1, 'sigma': True, 'r': r, 'timeout': 1800} for r in RENDERERS]
+    out += [{'k': 2, 'sigma': False, 'r': r, 'c1': c, 'timeout': 3000} for r in ('Html', 'Markdown', 'XWiki20') for c in ALPH14]
+    out += [{'k': 2, 'sigma': False, 'r': r, 'c1': c, 'opts': 'default', 'timeout': 3000} for r in ('LaTeX', 'Jira', 'Ast', 'MathJax') for c in ALPH14]
     return out
 
 
@@ -131,7 +131,7 @@ def _t1_thorough():
        note='document of k characters (over Σ, or over the 14 Markdown-significant characters), one bundled renderer per job, its options symbolic (booleans; max_line_length and depth unbounded ints)')
 def t1_pipeline(c1: int, c2: int, c3: int, b1: bool, b2: bool, b3: bool, L: int, depth: int, unknown: bool) -> bool:
     """
-    pre: (all_ok(cp_ok, P('k'), c1, c2, c3) if P('sigma') else all_in(ALPH14, P('k'), c1, c2, c3)) and fixed(c1, 'c1')
+    pre: fixed(c1, 'c1') and (all_ok(cp_ok, P('k'), c1, c2, c3) if P('sigma') else all_in(ALPH14, P('k'), c1, c2, c3))
     pre: L >= 1 and (P('r') != 'Ast' or not P('sigma')) and default_opts(b1, b2, b3, unknown)
     post: _
     """
@@ -248,7 +248,8 @@ SKELETONS = {
 
 
 @lemma('T3.constructs', 'C01', quick=[{'sk': s, 'r': r, 'opts': 'default'} for s in ('empty-quote', 'empty-item', 'image-alt') for r in ('Html', 'Markdown', 'LaTeX', 'Jira', 'XWiki20')],
-       thorough=[{'sk': s, 'r': r, 'timeout': 3000} for s in sorted(SKELETONS) for r in RENDERERS_FINITE], timeout=900, per_path=150,
+       thorough=[{'sk': s, 'r': r, 'opts': 'default', 'timeout': 3000} for s in sorted(SKELETONS) for r in MAIN]
+       + [{'sk': s, 'r': 'Html', 'timeout': 3000} for s in ('empty-quote', 'empty-item', 'image-alt', 'link', 'html-span', 'html-block')], timeout=900, per_path=150,
        stubs=['urllib.parse.quote -> contract stub', 'pygments -> stubs'],
        covers=['block_token.py:Document.__init__', 'base_renderer.py:BaseRenderer.render'],
        note='one skeleton per block / inline construct with a hole filled by ONE symbolic character over Σ (or nothing); one bundled renderer per job')
